@@ -686,6 +686,9 @@ class FTPFS(FS):
 
         with ftp_errors(self, path=path):
             dir_name, file_name = split(_path)
+            if dir_name != "/" and not self.getinfo(dir_name).is_dir:
+                # LIST of a file answers with the entry of the file itself
+                raise errors.ResourceNotFound(path)
             directory = self._read_dir(dir_name)
             if file_name not in directory:
                 raise errors.ResourceNotFound(path)
